@@ -1578,3 +1578,51 @@ val tree_case_b :
   n list -> fsmap -> bytes -> otable -> etable -> nat -> tree_result
 
 val tree_case : fsmap -> bytes -> otable -> etable -> nat -> tree_result
+
+type skind =
+| KJsight
+| KRegex
+| KPseudo
+
+type sdesc = { sd_kind : skind; sd_fails : bool }
+
+type cell =
+| LzNone
+| LzDone
+| LzErr
+
+type lstate = { l_cell : cell; l_draws : nat }
+
+type acc =
+| AJ
+| AJI
+| AO
+| AOI
+| AT
+
+type result =
+| RJson of bool * nat list
+| RJsonNull of bool * nat list * nat list
+| RErrAt of nat
+| ROpenApi of bool
+| RTitle
+
+type sem = { keep_error : bool; cache_example : bool }
+
+val current : sem
+
+val marshal_one :
+  sem -> sdesc -> lstate -> lstate * ((bool * nat option) * bool)
+
+val marshal_all :
+  sem -> nat -> sdesc list -> lstate list -> nat list -> nat list -> lstate
+  list * ((nat option * nat list) * nat list)
+
+val call : sem -> sdesc list -> lstate list -> acc -> lstate list * result
+
+val fresh : sdesc list -> lstate list
+
+val trace0 :
+  sem -> sdesc list -> lstate list -> acc list -> (cell list * result) list
+
+val lazy_case : sdesc list -> acc list -> (cell list * result) list
